@@ -620,3 +620,49 @@ func TestSameAttrUsedAgain(t *testing.T) {
 		})
 	})
 }
+
+// TestSmallIntegers: as in C01 - every integer from -12000 to 12000 and the neighbourhood of every power of ten and of
+// two, as int64, uint64 and duration attribute.
+func TestSmallIntegers(t *testing.T) {
+	si, sn := rt.Shard()
+	var vals []int64
+	for v := int64(-12000); v <= 12000; v++ {
+		vals = append(vals, v)
+	}
+	for p, k := int64(1), 0; k <= 18; p, k = p*10, k+1 {
+		for d := int64(-2); d <= 2; d++ {
+			vals = append(vals, p+d, -(p + d))
+		}
+	}
+	for k := 0; k <= 62; k++ {
+		for d := int64(-2); d <= 2; d++ {
+			vals = append(vals, int64(1)<<uint(k)+d, -(int64(1)<<uint(k) + d))
+		}
+	}
+	n := 0
+	for start := 0; start < len(vals); start += 256 {
+		if (start/256)%sn != si {
+			continue
+		}
+		var attrs []lm.Node
+		for i, v := range vals[start:min(start+256, len(vals))] {
+			attrs = append(attrs, lm.Node{Key: fmt.Sprintf("i%d", i), Kind: lm.KInt64, I: v}, lm.Node{Key: fmt.Sprintf("d%d", i), Kind: lm.KDuration, I: v})
+			if v >= 0 {
+				attrs = append(attrs, lm.Node{Key: fmt.Sprintf("u%d", i), Kind: lm.KUint64, U: uint64(v)})
+			}
+			n++
+		}
+		c := tcase{level: logger.LevelInfo, msg: "integers", attrs: attrs, form: 2}
+		if msg := run(c); msg != "" {
+			for _, a := range attrs {
+				one := tcase{level: logger.LevelInfo, msg: "integer", attrs: []lm.Node{a}, form: 2}
+				if m := run(one); m != "" {
+					t.Fatalf("%s\n  attribute: %s", m, a.Render())
+				}
+			}
+			t.Fatalf("%s", msg)
+		}
+	}
+	ev.LabelN("integers_checked_one_by_one", int64(n))
+	ev.Exhaustive(fmt.Sprintf("every integer in [-12000, 12000] and within 2 of every power of ten and of two, as int64 / uint64 / duration attribute (%d values in this shard)", n))
+}
